@@ -431,6 +431,175 @@ def check_view_algos(c, tx, b, label):
                        "for %d inputs, index %d)" % (f, len(spks_), nin, i), dict(tinfo, op="taproot.domain", digest=r))
 
 
+def respend(rng, m, what):
+    """another utxo of the SAME kind for the input described by `m` (the dispatch of PSBT.sighash must not change, the
+    digest has to): returns (TransactionOutput, new meta)"""
+    m = dict(m)
+    if what in ("value", "both"):
+        m["value"] = rng.choice([m["value"] ^ 1, (m["value"] + 1) % 2 ** 64, gen.pick_u64(rng)])
+    if what in ("script", "both"):
+        spk = m["spk"]
+        if m["kind"] == "p2wpkh":
+            h20 = gen.rbytes(rng, 20)
+            m["spk"], m["scriptcode"] = b"\x00\x14" + h20, p2pkh(h20)
+        elif rng.random() < 0.5:
+            m["spk"] = spk[:-2] + bytes([spk[-2] ^ 0x01]) + spk[-1:]     # one bit inside the hash
+        else:
+            m["spk"] = spk[:2] + gen.rbytes(rng, len(spk) - 3) + spk[-1:] if spk[0] == 0xa9 else spk[:2] + gen.rbytes(rng, len(spk) - 2)
+    return TransactionOutput(m["value"], Script(m["spk"])), m
+
+
+def hist_kwargs(rng):
+    """taproot kwargs of one history step: key path / other leaf scripts / other leaf versions / annex / codesep"""
+    r = rng.randrange(6)
+    if r == 0:
+        return {}
+    if r == 1:
+        return {"annex": b"\x50" + gen.rbytes(rng, rng.choice([0, 1, 40]))}
+    kw = {"ext_flag": 1, "script": Script(gen.gen_script(rng)), "leaf_version": rng.choice([0xC0, 0xC0, 0xC2, 0xFE])}
+    if r == 2:
+        kw["codeseparator_pos"] = rng.choice([0, 5, 0xFFFF])
+    if r == 3:
+        kw["annex"] = b"\x50" + gen.rbytes(rng, rng.choice([0, 3]))
+    return kw
+
+
+def spec_line(toks, meta, i, f, kw):
+    mi = meta[i]
+    if mi["algo"] == "legacy":
+        return "sighash.legacy.spec %s %d %s %d" % (toks, i, hx(mi["scriptcode"]), f)
+    if mi["algo"] == "segwit":
+        return "sighash.segwit.spec %s %d %s %d %d" % (toks, i, hx(mi["scriptcode"]), mi["value"], f)
+    return "sighash.taproot.spec " + tap_tokens(
+        toks, i, [m["spk"] for m in meta], [m["value"] for m in meta], f, kw.get("ext_flag", 0), kw.get("annex"),
+        None if kw.get("script") is None else kw["script"].data, kw.get("leaf_version", 0xC0), kw.get("codeseparator_pos"))
+
+
+def constructed_psbt(b, tx, version):
+    """a PSBT object built with the constructor (not parsed): scopes from the transaction, utxos / scripts assigned"""
+    q = PSBT.parse(b)
+    p = PSBT(Transaction(tx.version, [TransactionInput(v.txid, v.vout, Script(b""), v.sequence) for v in tx.vin],
+                         [TransactionOutput(o.value, Script(o.script_pubkey.data)) for o in tx.vout], tx.locktime),
+             version=(2 if version == 2 else None))
+    for a, s in zip(p.inputs, q.inputs):
+        a.witness_utxo, a.non_witness_utxo = s.witness_utxo, s.non_witness_utxo
+        a.redeem_script, a.witness_script = s.redeem_script, s.witness_script
+    return p
+
+
+def check_psbt_history(c, b, tx, meta, version, steps=7):
+    """`psbt.seq`: histories of `PSBT.sighash(i, sighash=f, **kwargs)` / `PSBTView.sighash(i, sighash=f, ...)` on ONE
+    object (round 6 "still open"): a parsed PSBT, a constructed PSBT and one PSBTView are asked `steps` times in a row
+    with other inputs, other flags (ANYONECANPAY variants included; for taproot also 0x80, where BIP341 has no digest)
+    and, on taproot inputs, other leaf scripts / leaf versions / annexes - interleaved, so that whatever one call left
+    behind (hash_prevouts / _sequence / _outputs / _amounts / _script_pubkeys, the view's offsets) meets a later call
+    it does not belong to. PSBT objects are also MUTATED between two calls (another witness_utxo amount / script of
+    one input, another sequence): the next answer has to be the digest of the PSBT as it is NOW - it is compared with
+    the Lean model `psbt.sighash` on `p.serialize()` taken at that moment and, independently of embit's serialiser
+    and dispatch, with the consensus spec on the generator's own record of the present fields. The view has no
+    mutating API (its stream is the caller's); its history is query-only, over the original bytes."""
+    rng = c.rng
+    nin = len(tx.vin)
+    if nin == 0:
+        return
+    pre = gen.rbytes(rng, rng.choice([0, 1, 7, 300]))
+    buf, off = pre + b, len(pre)
+    vc = rng.choice([0, 0, 1, 2])
+    objs = [("psbt-parsed", PSBT.parse(b), True), ("psbt-constructed", constructed_psbt(b, tx, version), True)]
+    try:
+        objs.append(("psbt-parsed-mode%d" % vc, PSBT.parse(b, compress=vc), False))
+    except Exception:
+        pass
+    objs.append(("view", open_view(buf, off, vc), False))
+    for name, obj, mutable in objs:
+        cur = Transaction(tx.version, [TransactionInput(v.txid, v.vout, Script(b""), v.sequence) for v in tx.vin],
+                          list(tx.vout), tx.locktime)
+        toks = gen.tx_tokens(cur)
+        mt = [dict(m) for m in meta]
+        now = obj.serialize() if name == "psbt-constructed" else b
+        hist, asked = [], []
+        for k in range(steps):
+            change = "-"
+            if mutable and k and rng.random() < 0.6:
+                change = rng.choice(["value", "script", "both", "sequence", "sequence", "out-value", "locktime", "wscript"])
+                if change == "out-value" and not cur.vout:
+                    change = "sequence"
+                wsh = [x for x in range(nin) if mt[x]["kind"] in ("p2wsh", "p2sh-p2wsh")]
+                if change == "wscript" and not wsh:
+                    change = "sequence"
+                # the utxo can be replaced where the witness utxo is the only record of the spent output
+                free = [x for x in range(nin) if obj.inputs[x].witness_utxo is not None and obj.inputs[x].non_witness_utxo is None]
+                if change in ("value", "script", "both") and not free:
+                    change = "sequence"
+                if change == "out-value":
+                    # another amount of one output (PSBT.tx is rebuilt from the output scopes)
+                    j = rng.randrange(len(cur.vout))
+                    nv = rng.choice([cur.vout[j].value ^ 1, gen.pick_u64(rng)])
+                    obj.outputs[j].value = nv
+                    cur.vout[j] = TransactionOutput(nv, cur.vout[j].script_pubkey)
+                    toks = gen.tx_tokens(cur)
+                elif change == "locktime":
+                    j = 0
+                    cur.locktime = rng.choice([cur.locktime ^ 1, 0, 1, 499999999, 500000000, 0xFFFFFFFF])
+                    obj.locktime = cur.locktime
+                    toks = gen.tx_tokens(cur)
+                elif change == "wscript":
+                    # another witness script = another BIP143 script code for that input
+                    j = rng.choice(wsh)
+                    ws = plain_script(rng)
+                    obj.inputs[j].witness_script = Script(ws)
+                    mt[j] = dict(mt[j], scriptcode=ws)
+                else:
+                    j = rng.randrange(nin) if change == "sequence" else rng.choice(free)
+                inp = obj.inputs[min(j, nin - 1)]
+                if change in ("out-value", "locktime", "wscript"):
+                    pass
+                elif change == "sequence":
+                    s = cur.vin[j].sequence
+                    s = rng.choice([s ^ 1, 0xFFFFFFFF, 0xFFFFFFFE, 0, gen.rbytes(rng, 4)[0] << 24 | 5])
+                    if s == cur.vin[j].sequence:
+                        s ^= 2
+                    inp.sequence = s
+                    cur.vin[j].sequence = s
+                    toks = gen.tx_tokens(cur)
+                else:
+                    inp.witness_utxo, mt[j] = respend(rng, mt[j], change)
+                change = "%s@%d" % (change, j)
+                now = obj.serialize()
+            i = rng.randrange(nin) if rng.random() < 0.93 else nin
+            f = rng.choice(VALID)
+            if hist and rng.random() < 0.3:
+                # the SAME input and flag as in an earlier step (a memo keyed by (input, flag) alone would answer)
+                i, f = rng.choice(asked)
+            asked.append((i, f))
+            mi = mt[i] if i < nin else None
+            tap = mi is not None and mi["algo"] == "taproot"
+            kw = hist_kwargs(rng) if (tap or mi is None) else {}
+            xt = extra_tokens(kw)
+            hist.append((change, i, "%#x" % f, xt[:40]))
+            info = {"entry": "%s:v%d" % (name, version), "hist": "psbt.seq", "step": k, "change": change, "idx": i,
+                    "flag": f, "kind": mi and mi["kind"], "kwargs": xt, "psbt": hx(now)[:6000], "history": list(hist)}
+            r = call(lambda: obj.sighash(i, f, **kw))
+            c.count(("pseq", name, k, i, f, xt, now), nontrivial=k > 0)
+            c.tally("pseq:%s" % change.split("@")[0])
+            c.tally("pseq-entry:%s" % name.split("-mode")[0])
+            valid = mi is not None and (tap or f in VALID)
+            if name == "view":
+                c.expect("view.sighash %d %d %d %d %s %s" % (off, vc, i, f, xt, hx(buf)), r, info, proven=valid)
+            else:
+                c.expect("psbt.sighash %d %d %d %s %s" % (vc if not mutable else 0, i, f, xt, hx(now)), r, info, proven=valid)
+            if valid:
+                c.expect(spec_line(toks, mt, i, f, kw), r, dict(info, oracle="spec"), proven=True)
+            if tap and f == 0x80 and r != "none":
+                c.fail("sighash returns a digest for a taproot input and hash type 0x80", dict(info, op="psbt.seq.domain"))
+            if mutable and k == steps - 1:
+                # the object at the end of its history against a fresh parse of its own bytes
+                r2 = call(lambda: PSBT.parse(now).sighash(i, f, **kw))
+                if r2 != r:
+                    c.fail("PSBT.sighash after a history of calls and mutations differs from a fresh parse of the same PSBT",
+                           dict(info, op="psbt.seq.fresh", digest=r, fresh=r2))
+
+
 def strip_v2_txversion(b):
     """a PSBTv2 without PSBT_GLOBAL_TX_VERSION (both entry points then sign nVersion 2)"""
     # walk the global scope with the harness's own reader: the pair is not necessarily the first one, and the
@@ -457,6 +626,7 @@ def explore_entry_points(c, n):
         c.tally("ep-psbt:v%d/in%d" % (version, len(tx.vin)))
         check_entry_points(c, b, toks, len(tx.vin), meta, flags, "signable-v%d" % version)
         check_view_algos(c, tx, b, "v%d" % version)
+        check_psbt_history(c, b, tx, meta, version)
         if version == 2 and k % 3 == 0:
             # finding C01X-D46 (fixed): no tx version field -> both entry points must use nVersion 2
             t2 = Transaction(2, tx.vin, tx.vout, tx.locktime)
@@ -489,7 +659,13 @@ def run(tier, seed):
               "and entry point ONE object asked 6 times for the BIP341 digest with other lists of spent scripts / amounts of the "
               "same length (one amount, one script, both, back to the first, reversed; fresh lists, the caller's lists edited "
               "in place, Script objects rebound, bytearray-backed scripts edited byte by byte), legacy / BIP143 calls in "
-              "between; every answer vs model and consensus spec")
+              "between; every answer vs model and consensus spec. Histories (`psbt.seq`): per signable PSBT ONE parsed PSBT, ONE "
+              "constructed PSBT, ONE PSBT parsed in a compressing reader mode and ONE PSBTView asked 7 times in a row through "
+              "sighash(i, f, **kwargs) with other inputs, flags (ANYONECANPAY variants, 0x80 on taproot) and taproot leaf "
+              "scripts / leaf versions / annexes; the two plain PSBT objects mutated between calls (witness_utxo of one input "
+              "replaced: other amount / other script of the same kind; sequence of one input, amount of one output, locktime, "
+              "witness script of a p2wsh input changed; 30 % of the steps repeat an earlier (input, flag) with other kwargs): every answer vs the "
+              "model on the object's serialisation at that moment and vs the consensus spec on the generator's record")
     c.assumptions = ["taproot: hash type 0x80 and lists of spent scripts / amounts of the wrong length have no BIP341 digest; "
                      "embit, model and spec all have to refuse (compared with the spec, proven=True)",
                      "scriptCode is an argument (OP_CODESEPARATOR / FindAndDelete are the caller's, as in embit)"]
